@@ -27,7 +27,7 @@ Triangle == /\ module = Frags
 TriangleOneIn == 4
 Export == (phase = "generated" /\ (RandomElement(1..SampleOneIn) = 1 \/ (NF >= 3 /\ Triangle /\ RandomElement(1..TriangleOneIn) = 1))) =>
   PrintT(<<"F", [f \in Frags |-> [on |-> defs[f].on, inl |-> defs[f].inl, spreads |-> SetToSortSeq(defs[f].spreads, <)]],
-           [k \in DOMAIN ops |-> [i \in DOMAIN ops[k] |-> [T |-> ops[k][i].T, fs |-> SetToSortSeq(ops[k][i].fs, <)]]],
+           [k \in DOMAIN ops |-> [i \in DOMAIN ops[k] |-> [T |-> ops[k][i].T, fs |-> SetToSortSeq(ops[k][i].fs, <), wrap |-> ops[k][i].wrap]]],
            SetToSortSeq(unpacked, <), SetToSortSeq(mixins, <), order, nm,
            [k \in DOMAIN opBases |-> [i \in DOMAIN opBases[k] |->
                LET cts == SetToSeq(DOMAIN opBases[k][i]) IN
